@@ -177,9 +177,62 @@ pub fn run(ctx: &mut Ctx, c: &Case) -> (String, String) {
                 Some(p) => format!("Some({},{})", p.index1(), p.index2()),
             })
         }
+        // ---- C01 / C02 / C07: one backend, one-shot
+        "find" | "rfind" | "count" => {
+            let ns = c.bytes("ns");
+            let h = c.bytes("h");
+            let hs = ctx.hay.place(&h, c.num("a"), flush_of(c.num("fl")));
+            let be = c.str("be").to_string();
+            let op = c.op.to_string();
+            record(hs, &[], || memchr_op(&op, &be, &ns, hs))
+        }
         _ => {
             let _ = opt(None);
             ("UnknownOp".to_string(), "-".to_string())
         }
+    }
+}
+
+macro_rules! arity {
+    ($m:path, $op:expr, $ns:expr, $hs:expr, $new:ident, $unwrap:expr) => {{
+        use $m as be;
+        match ($op, $ns.len()) {
+            ("find", 1) => opt($unwrap(be::One::$new($ns[0])).find($hs)),
+            ("find", 2) => opt($unwrap(be::Two::$new($ns[0], $ns[1])).find($hs)),
+            ("find", 3) => opt($unwrap(be::Three::$new($ns[0], $ns[1], $ns[2])).find($hs)),
+            ("rfind", 1) => opt($unwrap(be::One::$new($ns[0])).rfind($hs)),
+            ("rfind", 2) => opt($unwrap(be::Two::$new($ns[0], $ns[1])).rfind($hs)),
+            ("rfind", 3) => opt($unwrap(be::Three::$new($ns[0], $ns[1], $ns[2])).rfind($hs)),
+            ("count", 1) => $unwrap(be::One::$new($ns[0])).count($hs).to_string(),
+            _ => "BadCase".to_string(),
+        }
+    }};
+}
+
+fn ident<T>(x: T) -> T {
+    x
+}
+fn unwrap_avail<T>(x: Option<T>) -> T {
+    x.expect("backend not available")
+}
+
+pub fn memchr_op(op: &str, be: &str, ns: &[u8], hs: &[u8]) -> String {
+    match be {
+        "swar" => arity!(memchr::arch::all::memchr, op, ns, hs, new, ident),
+        #[cfg(target_arch = "x86_64")]
+        "sse2" => arity!(memchr::arch::x86_64::sse2::memchr, op, ns, hs, new, unwrap_avail),
+        #[cfg(target_arch = "x86_64")]
+        "avx2" => arity!(memchr::arch::x86_64::avx2::memchr, op, ns, hs, new, unwrap_avail),
+        "top" => match (op, ns.len()) {
+            ("find", 1) => opt(memchr::memchr(ns[0], hs)),
+            ("find", 2) => opt(memchr::memchr2(ns[0], ns[1], hs)),
+            ("find", 3) => opt(memchr::memchr3(ns[0], ns[1], ns[2], hs)),
+            ("rfind", 1) => opt(memchr::memrchr(ns[0], hs)),
+            ("rfind", 2) => opt(memchr::memrchr2(ns[0], ns[1], hs)),
+            ("rfind", 3) => opt(memchr::memrchr3(ns[0], ns[1], ns[2], hs)),
+            ("count", 1) => memchr::memchr_iter(ns[0], hs).count().to_string(),
+            _ => "BadCase".to_string(),
+        },
+        _ => "BadBackend".to_string(),
     }
 }
